@@ -1764,6 +1764,10 @@ func (t *tr) block(b []ast.Stmt, tail string, ind string) string {
 					name = name[:i]
 				}
 				t.pendingErr, t.errKnown = name, 0
+				// `err` now is this call's error: whatever an inlined helper's return made it stand for (e.g. `nil`) is gone
+				if t.aliases != nil {
+					delete(t.aliases, "err")
+				}
 				return pre + t.block(rest, tail, ind)
 			}
 		}
